@@ -104,8 +104,11 @@ Vocab(f, max) ==
                      structs |-> {"blk"}, nonempty |-> FALSE, sym |-> FALSE, two |-> FALSE, max |-> max]
 
 \* the languages a tree is resolved for: both when it mentions a mapfile alias
-Langs(t) == IF \E j \in DOMAIN NamesOfBlock(t) : NamesOfBlock(t)[j] \in {AliasVar, AliasIns}
-            THEN {"own", "other"} ELSE {"own"}
+\* ... and with / without a global enum const spelled like the register alias when it mentions that name
+Langs(t) == (IF \E j \in DOMAIN NamesOfBlock(t) : NamesOfBlock(t)[j] \in {AliasVar, AliasIns}
+             THEN {"own", "other"} ELSE {"own"})
+            \cup (IF \E j \in DOMAIN NamesOfBlock(t) : NamesOfBlock(t)[j] = AliasVar
+                  THEN {"own+e", "other+e"} ELSE {})
 
 -----------------------------------------------------------------------------
 (***************************************************************************)
@@ -143,11 +146,12 @@ Row(f, t, l) ==
         occ |-> <<>> \o [j \in 1..N |->
                     [p |-> Key(seq[j].p), n |-> seq[j].n, ns |-> seq[j].ns, role |-> seq[j].role, dk |-> seq[j].dk,
                      e |-> Label(R[j], seq[j].p, seq[j].ns),
-                     r1 |-> IF Bound(j) = 0 THEN seq[j].n ELSE "v" \o ToString(Num(Bound(j))),
-                     r2 |-> IF Bound(j) = 0 THEN seq[j].n ELSE PoolRename(seq[j].n)]],
+                     \* the enum const is a declared name too: it is renamed (to ge1 / ge2) along with its uses
+                     r1 |-> IF R[j].t = "enum" THEN "ge1" ELSE IF Bound(j) = 0 THEN seq[j].n ELSE "v" \o ToString(Num(Bound(j))),
+                     r2 |-> IF R[j].t = "enum" THEN "ge2" ELSE IF Bound(j) = 0 THEN seq[j].n ELSE PoolRename(seq[j].n)]],
         errs |-> <<>> \o [i \in 1..Len(bad) |-> [kind |-> R[bad[i]].t, n |-> seq[bad[i]].n, ns |-> seq[bad[i]].ns]],
         determined |-> \A j \in 1..N : R[j].t # "ambig",
-        clean |-> \A j \in 1..N : R[j].t \in {"def", "alias", "self"}]
+        clean |-> \A j \in 1..N : R[j].t \in {"def", "alias", "enum", "self"}]
 
 Cases(f, max) == UNION { { <<t, l>> : l \in Langs(t) } : t \in Family(Vocab(f, max)) }
 
